@@ -2011,6 +2011,25 @@ def _dtype_kind(v, default):
     return None
 
 
+def init_obj(repo, ci, attrs=None):
+    """An object of repo class ``ci`` in the state its no-argument constructor leaves it in (concrete defaults only: None, numbers,
+    strings, empty containers), then given the symbolic ``attrs``.  Code that tests a default the analysis did not set
+    (``if self._cache is None``) is then decided on the value the class really starts with."""
+    o = Obj(ci, {})
+    init = repo.find_member(ci, '__init__') if ci is not None else None
+    if init is not None and len(init[1].params) - 1 <= len(init[1].defaults()):
+        try:
+            Interp(repo).call(init[1], [], selfv=o)
+        except Exception:
+            o.attrs.clear()
+        for k in list(o.attrs):
+            v = o.attrs[k]
+            if not (v is None or isinstance(v, (bool, int, float, str)) or (isinstance(v, (list, dict, tuple)) and not v)):
+                del o.attrs[k]
+    o.attrs.update(attrs or {})
+    return o
+
+
 def mod_of(env):
     return env.get('__module__')
 
